@@ -302,6 +302,12 @@ HRow ==
             /\ h' = [Adv(h) EXCEPT !.written = @ + 1]
     /\ UNCHANGED <<cfg, phase, ssl, mwi, cparams, inq, eof, faulted, stmts, portals, skip, hq>>
 
+\* a scheduling gate inside the scripted statement function: no effect on the protocol
+HGate ==
+    /\ Running /\ Op.op = "gate"
+    /\ emit' = <<>> /\ h' = Adv(h)
+    /\ UNCHANGED <<cfg, phase, ssl, mwi, cparams, inq, eof, faulted, stmts, portals, skip, hq>>
+
 \* In the extended protocol the row values are encoded in the portal's
 \* result formats; the cell then names the rendering in that format.
 HComplete ==
@@ -591,7 +597,7 @@ Preamble == DoStartup \/ DoSSLRequest \/ DoStuffedDrop \/ TLSAbort \/ DoCancel \
             \/ DoPassword \/ DoNotPassword
             \/ WriteServerParams \/ Middleware \/ FirstReady
 
-Handler == HRow \/ HComplete \/ HEmpty \/ HCopyIn \/ HCopyReadNoop \/ HCopyRead \/ HCopyReadEOF \/ HReturn
+Handler == HGate \/ HRow \/ HComplete \/ HEmpty \/ HCopyIn \/ HCopyReadNoop \/ HCopyRead \/ HCopyReadEOF \/ HReturn
 
 Command == DoDiscard \/ DoQuery \/ StartNext \/ DoParse \/ DoBind \/ DoDescribe \/ DoExecute
            \/ DoClose \/ DoFlush \/ DoSync \/ DoStrayCopy \/ DoTerminate
